@@ -202,7 +202,7 @@ func cmdRun(args []string) int {
 		if !match || !hasTier(o, *tier) {
 			continue
 		}
-		if *only != "" && !strings.Contains(o.Name, *only) {
+		if *only != "" && !strings.Contains(o.Name, *only) && !strings.Contains(o.Func, *only) {
 			continue
 		}
 		obs = append(obs, o)
